@@ -29,6 +29,59 @@ def field_of_self(B, op):
     return None
 
 
+def counter_writers(ctx, rule):
+    """next_id / next_serial only ever move forward: the only functions that write them are allocate (under the rules
+    below) and the constructor. A reset anywhere else re-issues identifiers that are still in use."""
+    P = ctx.P
+    ctx.rule(rule, 'the id / serial counters are written only by allocate() and the constructor: no other function stores to, swaps or resets them (a reset re-issues pids that may still be in use, '
+             'e.g. as reply addresses of outstanding calls)', floor=2)
+    n = 0
+    for B in P.all('edp_client'):
+        if not B.path.startswith('edp_client::pid_allocator::'):
+            continue
+        seen = {}
+        for bb, t in B.calls():
+            kind = is_atomic_call(t)
+            if not kind or kind == 'load' or not t['args']:
+                continue
+            f = field_of_self(B, t['args'][0])
+            if f not in ('next_id', 'next_serial'):
+                continue
+            n += 1
+            k = seen.get((kind, f), 0) + 1
+            seen[(kind, f)] = k
+            inst = '%s:%s(%s)%s' % (B.path.rsplit('::', 1)[1], kind, f, '' if k == 1 else '#%d' % k)
+            base = B.path.split('::{')[0]
+            if base in (PA + '::allocate', PA + '::new'):
+                ctx.ok(rule, inst, 'written by %s' % base.rsplit('::', 1)[1], ctx.where(B, bb))
+            else:
+                ctx.bad(rule, inst, '%s writes the counter %s (%s): identifiers handed out before are issued again afterwards' % (base.rsplit('::', 1)[1], f, kind), ctx.where(B, bb),
+                        key='WHO:%s:writes:%s' % (base, f))
+    ctx.anchor(n >= 2, PA + ': writes of next_id / next_serial')
+
+
+def creation_writers(ctx, rule):
+    """the creation in force is whatever was set last: set_creation / new store their argument unconditionally"""
+    P = ctx.P
+    ctx.rule(rule, 'the creation atomic is written only by an unconditional store of the caller\'s value (constructor, set_creation): a conditional update (fetch_max, compare_exchange ...) '
+             'can silently keep the old creation, so later pids do not carry the creation in force', floor=1)
+    n = 0
+    for B in P.all('edp_client'):
+        if not B.path.startswith('edp_client::pid_allocator::'):
+            continue
+        for bb, t in B.calls():
+            kind = is_atomic_call(t)
+            if not kind or kind == 'load' or not t['args'] or field_of_self(B, t['args'][0]) != 'creation':
+                continue
+            n += 1
+            inst = '%s:%s(creation)' % (B.path.rsplit('::', 1)[1], kind)
+            if kind == 'store':
+                ctx.ok(rule, inst, 'unconditional store', ctx.where(B, bb))
+            else:
+                ctx.bad(rule, inst, 'creation is updated with %s, which does not always take the new value' % kind, ctx.where(B, bb), key='ATOMIC:%s:creation:%s' % (B.path.split('::{')[0], kind))
+    ctx.anchor(n >= 1, PA + ': write of creation')
+
+
 def run(ctx):
     P = ctx.P
     adt = ctx.F.adts.get(PA)
@@ -105,6 +158,9 @@ def run(ctx):
             else:
                 ctx.bad('C16.1-lock', inst, 'access to %s not covered by a live wrap_lock guard on all paths (locks acquired in this function: %d)' % (f, len(locks)),
                         ctx.where(B, bb), key='LOCK:' + inst)
+
+    counter_writers(ctx, 'C16.3-counter-writers')
+    creation_writers(ctx, 'C16.5-creation-writers')
 
     # ---- clause 3: per-path discipline in allocate ------------------------------------
     # Evaluated path by path (allocate has no loop): on each path every variable has the value assigned on that path,
